@@ -232,9 +232,25 @@ def attributable_warnings(o: Obs, baseline: Obs) -> int:
 def judge(strict: Obs, warn: Obs, lax: Obs, counters: Any) -> list[tuple[dict[str, Any], str]]:
     out: list[tuple[dict[str, Any], str]] = []
 
-    # non-Liquid exceptions are C02's business
-    if strict.other or warn.other or lax.other:
+    # non-Liquid exceptions are C02's business -- unless the tolerance mode itself makes the difference:
+    # "warn mode behaves the same [as lax]": an exception in exactly one of the two is a C03 violation.
+    if strict.other:
         counters("non_liquid_exception_c02_business")
+        return out
+    if warn.other or lax.other:
+        def first_bad(o: Obs) -> Phase:
+            return o.parse if o.parse.status != "ok" else o.render
+        wb, lb = first_bad(warn), first_bad(lax)
+        if warn.other and lax.other and wb.err == lb.err:
+            counters("non_liquid_exception_c02_business")
+            return out
+        which, ph = ("warn", wb) if warn.other else ("lax", lb)
+        other_mode = lax if which == "warn" else warn
+        out.append((
+            {"clause": "warn-differs-from-lax", "mode": which, "exc": ph.err, "site": ph.where},
+            f"{which} mode raised {ph.err} at {ph.where} ({ph.msg[:80]}) but "
+            f"{'lax' if which == 'warn' else 'warn'} mode {other_mode.label()}; strict: {strict.label()}",
+        ))
         return out
 
     # ---- clause 1 / 2a: nothing Liquid escapes in LAX / WARN ----------------------
